@@ -57,6 +57,11 @@ def gen_int(rng, limit_bits=63):
     return max(0, min(n, (1 << limit_bits) - 1))
 
 
+# (word, kind, unit name or seconds per one)
+GLUED_WORDS = [('mb', 'unit', None), ('kg', 'unit', None), ('km', 'unit', None), ('gb', 'unit', None), ('days', 'duration', 86400), ('weeks', 'duration', 604800),
+               ('hours', 'duration', 3600), ('minutes', 'duration', 60), ('seconds', 'duration', 1)]
+
+
 def half_away(x):
     return int(math.floor(abs(x) + 0.5)) * (1 if x >= 0 else -1)
 
@@ -108,6 +113,28 @@ def run_shard(ctx):
                     want_n = n
                     cls = 'to-base' if conn else 'to-base-no-connective'
                 want_base = tgt
+            elif r < 0.70:
+                # a name that holds the (possibly fractional) result of an operation on a based literal, then '<name> to <base>': rounded to the nearest integer
+                if src == 10:
+                    src = rng.choice([16, 8, 2])
+                n = gen_int(rng, 20)
+                op, mt, mv = rng.choice([('/', '2', 2.0), ('/', '4', 4.0), ('/', '8', 8.0), ('*', render_literal('0.5', sep), 0.5), ('*', render_literal('1.5', sep), 1.5),
+                                         ('*', render_literal('0.75', sep), 0.75), ('+', render_literal('0.5', sep), 0.5), ('+', render_literal('0.75', sep), 0.75), ('*', '3', 3.0)])
+                val = {'*': n * mv, '/': n / mv, '+': n + mv}[op]
+                word = rng.choice(list(BASES))
+                conn = rng.choice(['to ', 'as ', '', 'to '])
+                text = 'zq = %s %s %s\nzq %s%s' % (lit(n, src, rng), op, mt, conn, word)
+                want_n, want_base, cls = half_away(val), BASES[word], 'name-with-based-result-to-base'
+            elif r < 0.74:
+                # a based literal directly in front of a unit or duration word, like 1024mb or 3days
+                if src == 10:
+                    src = rng.choice([16, 8, 2])
+                n = rng.randint(1, 4096)
+                if src == 16 and n % 16 > 9:
+                    n -= 6          # a hex literal that ends in a letter runs into the word (0xCseconds): which letters are digits is not stated
+                word = rng.choice(GLUED_WORDS if src != 16 else [w for w in GLUED_WORDS if w[0][0] not in 'abcdef'])
+                text = lit(n, src, rng) + word[0]
+                want_n, want_base, cls = (n, word), src, 'glued-word'
             elif r < 0.8:
                 # a based literal takes part in a chain of operations like any other number: 0xA / 4 * 2, also through a variable
                 if src == 10:
@@ -179,6 +206,18 @@ def run_shard(ctx):
             res.count('class:' + cls)
             res.distinct.add(sep, text)
             problem = None
+            if cls == 'glued-word':
+                n_, (w_, k_, per_) = want_n
+                if k_ == 'unit':
+                    good = mon.kind(slot) == 'unit' and mon.fval(slot) == float(n_) and w_ in slot['v'].get('names', [])
+                else:
+                    good = mon.kind(slot) == 'duration' and slot['v'].get('secs') == n_ * per_
+                if good:
+                    res.count('ok')
+                else:
+                    res.violation('base:glued-word:%s' % TYPE_OF[want_base], '%r should be %d %s like the decimal spelling %d%s, got %s' % (text, n_, w_, n_, w_, mon.describe(slot)),
+                                  {'config': cfg, 'lang': 'en', 'text': text, 'observed': mon.describe(slot), 'ops': mon.gh.config_ops(cfg) + [{'op': 'execute', 'lang': 'en', 'text': text}]})
+                continue
             if mon.kind(slot) != 'number':
                 problem = 'expected a number, got %s' % mon.describe(slot)
             else:
